@@ -609,6 +609,13 @@ def _call_args(call, sig):
 #   * `x = a if c else b` == `if c: x = a else: x = b`; `if a or b: raise` == `if a: raise` `if b: raise`;
 #     `not (a == b)` == `a != b`; `if not c: A else: B` == `if c: B else: A`; `a, b = x, y` == `a = x; b = y`
 #     (fresh names only); docstrings, `pass`, logging calls and bare annotations are dropped.
+#   * a `for` whose sequence is syntactically evident is unrolled: a tuple / list literal, `zip` / `enumerate` / `reversed` of
+#     such, a dict literal (`.items()` / `.keys()` / `.values()`), or a NAME standing for one of these (a local bound once,
+#     before the loop and outside loops, to a literal of constants and never-rebound names; a module-level tuple of
+#     constants bound once and not rebound through `global`) -- `_loop_sources`
+#   * `p = partial(f, ..)` bound once and called once == the direct call with the merged arguments
+#   * helpers imported from another module of the package (`from .x import _h`, re-exports followed) are inlined like
+#     local ones when every free name of the helper means the same here (a builtin, or bound by the same import)
 # A write through an alias becomes a write to the detector chain it stands for, so it is still seen by `_touch`.
 
 def _ln(node):
@@ -792,24 +799,79 @@ class _InlineExpr(ast.NodeTransformer):
         return res
 
 
-def _unroll(st):
-    """`for a, b in ((x1, y1), (x2, y2)): body` -> body[x1, y1]; body[x2, y2]  (literal sequence of names / chains / constants,
+def _iter_elts(node):
+    """the elements a `for` header visits, in order, when that is syntactically evident: a tuple / list literal,
+    `zip(..)` / `enumerate(..)` / `reversed(..)` of such, a dict literal with constant keys (itself, `.keys()`,
+    `.values()`, `.items()`); None otherwise"""
+    if isinstance(node, (ast.Tuple, ast.List)):
+        return None if any(isinstance(e, ast.Starred) for e in node.elts) else list(node.elts)
+    if isinstance(node, ast.Dict):
+        ks = node.keys
+        if any(k is None or not isinstance(k, ast.Constant) for k in ks) or len({repr(k.value) for k in ks}) != len(ks):
+            return None
+        try:
+            if len({k.value for k in ks}) != len(ks):          # 1 / 1.0 / True are the same key
+                return None
+        except TypeError:
+            return None
+        return list(ks)
+    if isinstance(node, ast.Call) and not any(isinstance(a, ast.Starred) for a in node.args):
+        if isinstance(node.func, ast.Attribute) and node.func.attr in ("items", "keys", "values") \
+                and isinstance(node.func.value, ast.Dict) and not node.args and not node.keywords:
+            ks = _iter_elts(node.func.value)
+            if ks is None:
+                return None
+            vs = node.func.value.values
+            return {"keys": ks, "values": list(vs),
+                    "items": [ast.Tuple(elts=[k, v], ctx=ast.Load()) for k, v in zip(ks, vs)]}[node.func.attr]
+        fn = node.func.id if isinstance(node.func, ast.Name) else None
+        if fn == "zip" and node.args and all(k.arg == "strict" for k in node.keywords):
+            cols = [_iter_elts(a) for a in node.args]
+            if any(c is None for c in cols) or (node.keywords and len({len(c) for c in cols}) != 1):
+                return None
+            return [ast.Tuple(elts=list(row), ctx=ast.Load()) for row in zip(*cols)]
+        if fn == "enumerate" and 1 <= len(node.args) + len(node.keywords) <= 2 and node.args \
+                and all(k.arg == "start" for k in node.keywords):
+            seq = _iter_elts(node.args[0])
+            start = node.args[1] if len(node.args) == 2 else node.keywords[0].value if node.keywords else ast.Constant(value=0)
+            if seq is None or not (isinstance(start, ast.Constant) and type(start.value) is int):
+                return None
+            return [ast.Tuple(elts=[ast.Constant(value=start.value + i), e], ctx=ast.Load()) for i, e in enumerate(seq)]
+        if fn in ("reversed", "tuple", "list", "iter") and len(node.args) == 1 and not node.keywords:
+            seq = _iter_elts(node.args[0])
+            return None if seq is None else seq[::-1] if fn == "reversed" else seq
+    return None
+
+
+def _bind_target(tgt, val, m):
+    """loop target pattern against one element: names bind names / chains / constants, tuples bind tuples of equal length"""
+    if isinstance(tgt, ast.Name):
+        if not _simple_arg(val) or tgt.id in m:
+            return False
+        m[tgt.id] = val
+        return True
+    if isinstance(tgt, (ast.Tuple, ast.List)) and isinstance(val, (ast.Tuple, ast.List)) and len(tgt.elts) == len(val.elts) \
+            and not any(isinstance(e, ast.Starred) for e in list(tgt.elts) + list(val.elts)):
+        return all(_bind_target(t, v, m) for t, v in zip(tgt.elts, val.elts))
+    return False
+
+
+def _unroll(st, elts):
+    """`for a, b in ((x1, y1), (x2, y2)): body` -> body[x1, y1]; body[x2, y2]  (evident sequence of names / chains / constants,
     loop variables not assigned in the body, no break / continue)"""
-    tg = [st.target] if isinstance(st.target, ast.Name) else list(st.target.elts) if isinstance(st.target, ast.Tuple) else None
-    if tg is None or not all(isinstance(t, ast.Name) for t in tg):
+    names = [n.id for n in ast.walk(st.target) if isinstance(n, ast.Name)]
+    if any(not isinstance(n, (ast.Name, ast.Tuple, ast.List, ast.Store, ast.Load)) for n in ast.walk(st.target)):
         return None
-    names = [t.id for t in tg]
     for b in st.body:
         for n in ast.walk(b):
             if isinstance(n, (ast.Break, ast.Continue, ast.Lambda, ast.FunctionDef)) or \
                     (isinstance(n, ast.Name) and n.id in names and not isinstance(n.ctx, ast.Load)):
                 return None
     out = []
-    for e in st.iter.elts:
-        vals = [e] if isinstance(st.target, ast.Name) else list(e.elts) if isinstance(e, (ast.Tuple, ast.List)) else None
-        if vals is None or len(vals) != len(names) or not all(_simple_arg(v) for v in vals):
+    for e in elts:
+        m = {}
+        if not _bind_target(st.target, e, m) or sorted(m) != sorted(names):
             return None
-        m = dict(zip(names, vals))
 
         class Sub(ast.NodeTransformer):
             def visit_Name(self, n):
@@ -846,8 +908,9 @@ def _simplify(stmts, funcs, keep, counter):
             if not any(isinstance(n, ast.Name) and n.id in tn for e in st.value.elts for n in ast.walk(e)) and len(tn) == len(st.value.elts):
                 out += [ast.Assign(targets=[t], value=v, lineno=_ln(st)) for t, v in zip(st.targets[0].elts, st.value.elts)]
                 continue
-        if isinstance(st, ast.For) and not st.orelse and isinstance(st.iter, (ast.Tuple, ast.List)) and len(st.iter.elts) <= 8:
-            un = _unroll(st)
+        elts = _iter_elts(st.iter) if isinstance(st, ast.For) and not st.orelse else None
+        if elts is not None and len(elts) <= 8:
+            un = _unroll(st, elts)
             if un is not None:
                 out += _simplify(un, funcs, keep, counter)
                 continue
@@ -913,11 +976,308 @@ def _expand_aliases(body, pars):
     return out
 
 
+def _leaf_ok(e, depth=0):
+    """a sequence element whose evaluation has no effect and whose value does not depend on WHEN it is evaluated, given
+    that the names in it are never rebound later: constants, names, tuples of them"""
+    if isinstance(e, (ast.Constant, ast.Name)):
+        return True
+    return isinstance(e, ast.Tuple) and depth < 3 and all(_leaf_ok(x, depth + 1) for x in e.elts)
+
+
+def _module_const_seqs(tree):
+    """module-level names bound exactly once to a tuple of constants (and never rebound through `global`)"""
+    count, val = {}, {}
+    for st in tree.body:
+        for n in ast.walk(st) if not isinstance(st, (ast.FunctionDef, ast.ClassDef)) else [ast.Name(id=st.name, ctx=ast.Store())]:
+            if isinstance(n, ast.Name) and isinstance(n.ctx, (ast.Store, ast.Del)):
+                count[n.id] = count.get(n.id, 0) + 1
+        tgt = st.targets[0] if isinstance(st, ast.Assign) and len(st.targets) == 1 else getattr(st, "target", None) \
+            if isinstance(st, ast.AnnAssign) and st.value is not None else None
+        if isinstance(tgt, ast.Name) and isinstance(st.value, ast.Tuple) and _leaf_ok(st.value) \
+                and not any(isinstance(n, ast.Name) for n in ast.walk(st.value)):
+            val[tgt.id] = st.value
+    rebound = {nm for n in ast.walk(tree) if isinstance(n, ast.Global) for nm in n.names}
+    return {k: v for k, v in val.items() if count.get(k) == 1 and k not in rebound}
+
+
+def _record_classes(tree):
+    """module-level named-tuple classes: name -> field names in order.  `class X(NamedTuple): a: T; b: T` (fields without
+    defaults, docstring allowed, nothing else in the body) and `X = namedtuple("X", ["a", "b"])` / `"a b"` / `"a, b"`"""
+    imap = _import_map(tree, "m.py")
+    def is_(node, mod, name):
+        t = ast.unparse(node)
+        return imap.get(t) == ("from", mod, name) or ("." in t and imap.get(t.split(".")[0]) == ("module", mod) and t.split(".", 1)[1] == name)
+    out, count = {}, {}
+    for st in tree.body:
+        for n in ([ast.Name(id=st.name, ctx=ast.Store())] if isinstance(st, (ast.FunctionDef, ast.AsyncFunctionDef, ast.ClassDef))
+                  else ast.walk(st)):
+            if isinstance(n, ast.Name) and not isinstance(n.ctx, ast.Load):
+                count[n.id] = count.get(n.id, 0) + 1
+        if isinstance(st, ast.ClassDef) and len(st.bases) == 1 and is_(st.bases[0], "typing", "NamedTuple") \
+                and not st.keywords and not st.decorator_list:
+            b = body_no_doc(st)
+            if b and all(isinstance(x, ast.AnnAssign) and isinstance(x.target, ast.Name) and x.value is None for x in b):
+                out[st.name] = [x.target.id for x in b]
+        elif isinstance(st, ast.Assign) and len(st.targets) == 1 and isinstance(st.targets[0], ast.Name) \
+                and isinstance(st.value, ast.Call) and is_(st.value.func, "collections", "namedtuple") \
+                and len(st.value.args) == 2 and not st.value.keywords:
+            f = st.value.args[1]
+            if isinstance(f, ast.Constant) and isinstance(f.value, str):
+                out[st.targets[0].id] = f.value.replace(",", " ").split()
+            elif isinstance(f, (ast.Tuple, ast.List)) and all(isinstance(e, ast.Constant) and isinstance(e.value, str) for e in f.elts):
+                out[st.targets[0].id] = [e.value for e in f.elts]
+    rebound = {nm for n in ast.walk(tree) if isinstance(n, ast.Global) for nm in n.names}
+    return {k: v for k, v in out.items() if count.get(k) == 1 and k not in rebound and len(set(v)) == len(v)}
+
+
+def _loop_sources(body, pars, consts, partial_names=(), records=None):
+    """`for .. in NAME` (or in zip / enumerate / .items() over names) where NAME is bound ONCE, before the loop and outside any
+    loop, to a tuple / list / dict literal of constants and never-rebound names, or is a module-level tuple of constants:
+    the name in the loop header is replaced by the literal, so that the loop can be unrolled.  The assignment itself stays
+    (and is read like any other assignment).  A list / dict literal qualifies only when the name is used nowhere else
+    (nothing can have changed it)."""
+    stores, loads, order, in_loop, k = {}, {}, {}, {}, [0]
+
+    def scan(stmts, looped):
+        for st in stmts:
+            k[0] += 1
+            here = k[0]
+            subs = [getattr(st, f) for f in ("body", "orelse", "finalbody") if isinstance(getattr(st, f, None), list)]
+            subs += [h.body for h in getattr(st, "handlers", [])] + [c.body for c in getattr(st, "cases", [])]
+            own = [x for x in ast.iter_child_nodes(st) if not isinstance(x, (ast.stmt, ast.ExceptHandler))
+                   and type(x).__name__ != "match_case"]
+            for h in getattr(st, "handlers", []):
+                if h.name:
+                    stores[h.name] = stores.get(h.name, 0) + 2
+            for x in own:
+                for n in ast.walk(x):
+                    if isinstance(n, ast.Name):
+                        if isinstance(n.ctx, ast.Load):
+                            loads[n.id] = loads.get(n.id, 0) + 1
+                        else:
+                            stores[n.id] = stores.get(n.id, 0) + 1
+                            order[n.id], in_loop[n.id] = here, looped or isinstance(st, (ast.For, ast.While))
+                    elif isinstance(n, (ast.NamedExpr, ast.ListComp, ast.SetComp, ast.DictComp, ast.GeneratorExp, ast.Lambda)):
+                        stores["*"] = 1                      # scopes / bindings this scan does not follow
+            if isinstance(st, (ast.FunctionDef, ast.AsyncFunctionDef, ast.ClassDef, ast.Global, ast.Nonlocal, ast.Import,
+                               ast.ImportFrom)) or type(st).__name__ == "Match":
+                stores["*"] = 1
+            for sub in subs:
+                scan(sub, looped or isinstance(st, (ast.For, ast.While)))
+
+    scan(body, False)
+    if stores.get("*"):
+        return body, False
+    changed = [False]
+
+    def fixed_before(name, pos):
+        """the name holds the same value from position `pos` on"""
+        c = stores.get(name, 0)
+        return c == 0 or (c == 1 and name not in pars and not in_loop[name] and order[name] < pos)
+
+    def walk(stmts, avail):
+        avail = dict(avail)                                   # name -> (literal, position) bound earlier in an enclosing list
+        for st in stmts:
+            k[0] += 1
+            here = k[0]
+            # `p = partial(f, a, k=x)` ... `p(b, j=y)`  ==  `f(a, b, k=x, j=y)`: p bound once (outside loops, earlier in an
+            # enclosing statement list), used exactly once, the names in the bound arguments never rebound afterwards
+            part = {nm: v for nm, v in avail.items() if v[0] == "partial" and fixed_before(nm, here)}
+            recs = {nm: v[1] for nm, v in avail.items() if v[0] == "record" and fixed_before(nm, here)}
+            if part or recs:
+                class Calls(ast.NodeTransformer):
+                    # `v = X(e1, e2)` (X a named-tuple class with fields a, b) ... `v.a` / `v[0]`  ==  e1
+                    def visit_Attribute(self, n):
+                        self.generic_visit(n)
+                        if isinstance(n.value, ast.Name) and n.value.id in recs and isinstance(n.ctx, ast.Load) \
+                                and n.attr in recs[n.value.id][0]:
+                            changed[0] = True
+                            return copy.deepcopy(recs[n.value.id][1][recs[n.value.id][0].index(n.attr)])
+                        return n
+
+                    def visit_Subscript(self, n):
+                        self.generic_visit(n)
+                        if isinstance(n.value, ast.Name) and n.value.id in recs and isinstance(n.ctx, ast.Load):
+                            fields, vals = recs[n.value.id]
+                            try:
+                                i = int_const(n.slice)
+                            except Exception:
+                                return n
+                            if -len(vals) <= i < len(vals):
+                                changed[0] = True
+                                return copy.deepcopy(vals[i])
+                        return n
+
+                    def visit_Call(self, n):
+                        self.generic_visit(n)
+                        if isinstance(n.func, ast.Name) and n.func.id in part and not any(isinstance(a, ast.Starred) for a in n.args) \
+                                and not any(kw.arg is None for kw in n.keywords):
+                            pc = part[n.func.id][1]
+                            given = {kw.arg for kw in n.keywords}
+                            changed[0] = True
+                            return ast.Call(func=copy.deepcopy(pc.args[0]), args=copy.deepcopy(pc.args[1:]) + n.args,
+                                            keywords=[copy.deepcopy(kw) for kw in pc.keywords if kw.arg not in given] + n.keywords)
+                        return n
+                for f, v in list(ast.iter_fields(st)):
+                    if isinstance(v, ast.expr):
+                        setattr(st, f, Calls().visit(v))
+                    elif isinstance(v, list) and f not in ("body", "orelse", "finalbody", "handlers", "cases"):
+                        setattr(st, f, [Calls().visit(x) if isinstance(x, (ast.expr, ast.keyword, ast.withitem)) else x for x in v])
+            if isinstance(st, ast.For):
+                names = {n.id for n in ast.walk(st.iter) if isinstance(n, ast.Name) and isinstance(n.ctx, ast.Load)}
+                m = {}
+                for nm in names:
+                    if nm in avail and avail[nm][0] not in ("partial", "record") and fixed_before(nm, here):
+                        lit, _ = avail[nm]
+                        n_uses = sum(1 for n in ast.walk(st.iter) if isinstance(n, ast.Name) and n.id == nm)
+                        if isinstance(lit, ast.Tuple) or loads.get(nm, 0) == n_uses:
+                            m[nm] = lit
+                    elif stores.get(nm, 0) == 0 and nm not in pars and nm in consts:
+                        m[nm] = consts[nm]
+                if m:
+                    class Sub(ast.NodeTransformer):
+                        def visit_Name(self, n):
+                            return copy.deepcopy(m[n.id]) if n.id in m and isinstance(n.ctx, ast.Load) else n
+                    it = Sub().visit(copy.deepcopy(st.iter))
+                    if _iter_elts(it) is not None:
+                        st.iter = it
+                        changed[0] = True
+            tgt = st.targets[0] if isinstance(st, ast.Assign) and len(st.targets) == 1 else None
+            if isinstance(tgt, ast.Name) and stores.get(tgt.id) == 1 and tgt.id not in pars and not in_loop[tgt.id]:
+                v = st.value
+                elems = list(v.elts) if isinstance(v, (ast.Tuple, ast.List)) else \
+                    [x for x in list(v.keys) + list(v.values)] if isinstance(v, ast.Dict) and None not in v.keys else None
+                if elems is not None and all(_leaf_ok(e) for e in elems) and all(
+                        fixed_before(n.id, here) for e in elems for n in ast.walk(e) if isinstance(n, ast.Name)):
+                    avail[tgt.id] = (v, here)
+                if isinstance(v, ast.Call) and ast.unparse(v.func) in partial_names and v.args and isinstance(v.args[0], ast.Name) \
+                        and loads.get(tgt.id, 0) == 1 and not any(isinstance(a, ast.Starred) for a in v.args) \
+                        and not any(kw.arg is None for kw in v.keywords) \
+                        and all(isinstance(n, (ast.Constant, ast.Name, ast.Attribute, ast.Subscript, ast.Call, ast.keyword, ast.Tuple, ast.Load))
+                                for a in list(v.args) + [kw.value for kw in v.keywords] for n in ast.walk(a)) \
+                        and all(fixed_before(n.id, here) for n in ast.walk(v) if isinstance(n, ast.Name)):
+                    avail[tgt.id] = ("partial", v)
+                fields = (records or {}).get(v.func.id) if isinstance(v, ast.Call) and isinstance(v.func, ast.Name) \
+                    and stores.get(v.func.id, 0) == 0 and v.func.id not in pars else None
+                if fields is not None and not any(kw.arg is None for kw in v.keywords):
+                    vals = None
+                    if len(v.args) == 1 and isinstance(v.args[0], ast.Starred) and not v.keywords and _chain_root(v.args[0].value) is not None:
+                        vals = [ast.Subscript(value=copy.deepcopy(v.args[0].value), slice=ast.Constant(value=i), ctx=ast.Load())
+                                for i in range(len(fields))]           # X(*seq): the call itself raises unless len(seq) == len(fields)
+                    elif not any(isinstance(a, ast.Starred) for a in v.args):
+                        m = dict(zip(fields, v.args))
+                        if len(v.args) <= len(fields) and all(kw.arg in fields and kw.arg not in m for kw in v.keywords):
+                            m.update({kw.arg: kw.value for kw in v.keywords})
+                            if set(m) == set(fields) and all(_simple_arg(e) for e in m.values()):
+                                vals = [m[f] for f in fields]
+                    if vals is not None and all(fixed_before(n.id, here) for n in ast.walk(v) if isinstance(n, ast.Name)):
+                        avail[tgt.id] = ("record", (fields, vals))
+            for f in ("body", "orelse", "finalbody"):
+                sub = getattr(st, f, None)
+                if isinstance(sub, list):
+                    walk(sub, avail)
+            for h in getattr(st, "handlers", []):
+                walk(h.body, avail)
+            for c in getattr(st, "cases", []):
+                walk(c.body, avail)
+        return stmts
+
+    k[0] = 0
+    walk(body, {})
+    return body, changed[0]
+
+
+def _parse(repo, rel):
+    tree = parse(repo, rel)
+    tree._repo, tree._rel = repo, rel                        # lets the normaliser follow helpers imported from the package
+    return tree
+
+
+_READ_AS_CALLS = {"get_dtype"}                               # imported functions the reader wants to SEE called
+
+
+def _import_map(tree, rel):
+    """name -> what a top-level import statement binds it to (absolute module path [, imported name])"""
+    pkg = rel[:-3].split("/")[:-1] if not rel.endswith("__init__.py") else rel.split("/")[:-1]
+    out = {}
+    for st in tree.body:
+        if isinstance(st, ast.Import):
+            for a in st.names:
+                out[a.asname or a.name.split(".")[0]] = ("module", a.name if a.asname else a.name.split(".")[0])
+        elif isinstance(st, ast.ImportFrom):
+            base = pkg[:len(pkg) - (st.level - 1)] if st.level else []
+            mod = ".".join(base + (st.module.split(".") if st.module else []))
+            for a in st.names:
+                out[a.asname or a.name] = ("from", mod, a.name)
+    return out
+
+
+def _foreign_def(repo, mod, name, depth=0):
+    """(FunctionDef, its module's tree, rel) of `name` imported from module `mod` of the package under `repo`; follows
+    re-exports (`from .misc import name`) a few levels; None when it is not a plain function found there"""
+    for rel in (mod.replace(".", "/") + ".py", mod.replace(".", "/") + "/__init__.py"):
+        if (repo / rel).is_file():
+            break
+    else:
+        return None
+    try:
+        tree = ast.parse((repo / rel).read_text())
+    except (SyntaxError, OSError, UnicodeDecodeError):
+        return None
+    binds = [st for st in tree.body if (isinstance(st, (ast.FunctionDef, ast.AsyncFunctionDef, ast.ClassDef)) and st.name == name)
+             or any(isinstance(n, ast.Name) and n.id == name and not isinstance(n.ctx, ast.Load) for n in ast.walk(st)
+                    if not isinstance(st, (ast.FunctionDef, ast.AsyncFunctionDef, ast.ClassDef)))]
+    if len(binds) == 1 and isinstance(binds[0], ast.FunctionDef):
+        return binds[0], tree, rel
+    if not binds and depth < 3:
+        m = _import_map(tree, rel).get(name)
+        if m is not None and m[0] == "from":
+            return _foreign_def(repo, m[1], m[2], depth + 1)
+    return None
+
+
+def _foreign_helpers(tree):
+    """helpers imported from other modules of the package, usable for inlining: the function's free names must mean the
+    same thing in this module (builtins, or bound by the same import in both modules)"""
+    import builtins
+    repo, rel = getattr(tree, "_repo", None), getattr(tree, "_rel", None)
+    if repo is None:
+        return {}
+    here, out = _import_map(tree, rel), {}
+    for nm, m in here.items():
+        if m[0] != "from" or nm in _READ_AS_CALLS or m[2] in _READ_AS_CALLS:
+            continue
+        found = _foreign_def(repo, m[1], m[2])
+        if found is None:
+            continue
+        f, ftree, frel = found
+        there = _import_map(ftree, frel)
+        a = f.args
+        local = {x.arg for x in a.args + a.kwonlyargs + a.posonlyargs} | {x.arg for x in (a.vararg, a.kwarg) if x}
+        local |= {n.id for n in ast.walk(f) if isinstance(n, ast.Name) and not isinstance(n.ctx, ast.Load)}
+        local |= {n.name for n in ast.walk(f) if isinstance(n, ast.ExceptHandler) and n.name}
+        free = {n.id for st in f.body for n in ast.walk(st) if isinstance(n, ast.Name) and isinstance(n.ctx, ast.Load)} - local
+        free |= {n.id for d in list(a.defaults) + [d for d in a.kw_defaults if d is not None] for n in ast.walk(d) if isinstance(n, ast.Name)}
+        if all(hasattr(builtins, x) or (x in there and there[x] == here.get(x)) for x in free):
+            g = copy.deepcopy(f)
+            g.name = nm
+            out[nm] = g
+    return out
+
+
 def _normalised(tree, fname, keep):
     fn = find_func(tree, fname)
-    funcs = {n.name: n for n in tree.body if isinstance(n, ast.FunctionDef) and n.name != fname}
+    funcs = _foreign_helpers(tree)
+    funcs.update({n.name: n for n in tree.body if isinstance(n, ast.FunctionDef) and n.name != fname})
     pars = [a.arg for a in fn.args.args + fn.args.kwonlyargs]
-    body = _simplify(copy.deepcopy(body_no_doc(fn)), funcs, set(keep), [0])
+    counter = [0]
+    body = _simplify(copy.deepcopy(body_no_doc(fn)), funcs, set(keep), counter)
+    imap = _import_map(tree, getattr(tree, "_rel", "m.py"))
+    partial_names = {k for k, v in imap.items() if v == ("from", "functools", "partial")} | \
+        {k + ".partial" for k, v in imap.items() if v == ("module", "functools")}
+    body, changed = _loop_sources(body, pars, _module_const_seqs(tree), partial_names, _record_classes(tree))
+    if changed:
+        body = _simplify(body, funcs, set(keep), counter)
     body = _expand_aliases(_flatten(body), pars)
     while body and isinstance(body[-1], ast.Return) and (body[-1].value is None or (
             isinstance(body[-1].value, ast.Constant) and body[-1].value.value is None)):
@@ -1127,6 +1487,8 @@ def _touch(tree, fname, apply_name):
                 add(reads, part)          # `x.image.array += ...` reads too; `detector.image = ...` replaces a part
         else:
             add(reads, part)
+    canon = ["PCharacteristics", "PSignal", "PGeometry", "PImage", "POtherPart", "PWhole"]   # a set: the order says nothing
+    reads, writes = sorted(reads, key=canon.index), sorted(writes, key=canon.index)
     return f"{{| t_reads := [{'; '.join(reads)}]; t_writes := [{'; '.join(writes)}] |}}"
 
 
@@ -1182,6 +1544,10 @@ def _module_state(tree, roots, label):
         if isinstance(v, ast.Call) and ast.unparse(v.func) in ("frozenset", "tuple", "range", "MappingProxyType", "types.MappingProxyType") \
                 and not v.keywords and all(lit(a) or container(a) for a in v.args):
             return True
+        if isinstance(v, ast.Call) and ast.unparse(v.func) in ("namedtuple", "collections.namedtuple") \
+                and ast.unparse(v.func).split(".")[0] in imported and all(lit(a) or container(a) for a in v.args) \
+                and all(k.arg is not None and lit(k.value) for k in v.keywords):
+            return True                                      # a named-tuple CLASS made of literals: nothing to mutate
         return _is_literal_const(v)
 
     def container(v):
@@ -1323,16 +1689,16 @@ def _s(x):
 
 def wrappers(repo: Path) -> str:
     base = "pyxel/models/readout_electronics/"
-    a, _ = _wrapper(parse(repo, base + "simple_adc.py"), "simple_adc", "apply_simple_adc",
+    a, _ = _wrapper(_parse(repo, base + "simple_adc.py"), "simple_adc", "apply_simple_adc",
                     ["signal", "bit_resolution", "voltage_min", "voltage_max", "dtype"])
-    b, _ = _wrapper(parse(repo, base + "sar_adc.py"), "sar_adc", "apply_sar_adc",
+    b, _ = _wrapper(_parse(repo, base + "sar_adc.py"), "sar_adc", "apply_sar_adc",
                     ["signal_2d", "num_rows", "num_cols", "min_volt", "max_volt", "adc_bits"])
-    c, g = _wrapper(parse(repo, base + "sar_adc_with_noise.py"), "sar_adc_with_noise", "apply_sar_adc_with_noise",
+    c, g = _wrapper(_parse(repo, base + "sar_adc_with_noise.py"), "sar_adc_with_noise", "apply_sar_adc_with_noise",
                     ["signal_2d", "num_rows", "num_cols", "strengths", "noises", "max_volt", "adc_bits"])
     touches = (
-        f"Definition src_simple_touch : touch := {_touch(parse(repo, base + 'simple_adc.py'), 'simple_adc', 'apply_simple_adc')}.\n"
-        f"Definition src_sar_touch : touch := {_touch(parse(repo, base + 'sar_adc.py'), 'sar_adc', 'apply_sar_adc')}.\n"
-        f"Definition src_sar0_touch : touch := {_touch(parse(repo, base + 'sar_adc_with_noise.py'), 'sar_adc_with_noise', 'apply_sar_adc_with_noise')}.\n")
+        f"Definition src_simple_touch : touch := {_touch(_parse(repo, base + 'simple_adc.py'), 'simple_adc', 'apply_simple_adc')}.\n"
+        f"Definition src_sar_touch : touch := {_touch(_parse(repo, base + 'sar_adc.py'), 'sar_adc', 'apply_sar_adc')}.\n"
+        f"Definition src_sar0_touch : touch := {_touch(_parse(repo, base + 'sar_adc_with_noise.py'), 'sar_adc_with_noise', 'apply_sar_adc_with_noise')}.\n")
     return touches + (
         f"Definition src_simple_wiring : simple_wiring := {{| sw_signal := {_s(a['signal'])}; sw_bits := {_s(a['bit_resolution'])}; "
         f"sw_vmin := {_s(a['voltage_min'])}; sw_vmax := {_s(a['voltage_max'])}; sw_dtype := {_dt(a['dtype'])}; "
